@@ -324,6 +324,26 @@ func genCfg(r *rand.Rand, bbOnly bool) HCfg {
 	}
 	if r.Intn(8) != 0 {
 		c.Deck = shuffled(r, base)
+		if r.Intn(6) == 0 {
+			// a board that plays for everybody (royal flush): every showdown is a tie of all non-folded players,
+			// which sends odd chips and merged side-pot levels through real play
+			royal := map[string]bool{"SA": true, "SK": true, "SQ": true, "SJ": true, "ST": true}
+			var rest, roy []string
+			for _, x := range c.Deck {
+				if royal[x] {
+					roy = append(roy, x)
+				} else {
+					rest = append(rest, x)
+				}
+			}
+			k := n * c.HoleN
+			if len(rest) >= k+3 {
+				d := append([]string{}, rest[:k]...)
+				d = append(d, rest[k], roy[0], roy[1], roy[2], rest[k+1], roy[3], rest[k+2], roy[4])
+				d = append(d, rest[k+3:]...)
+				c.Deck = d
+			}
+		}
 	} // else: keep the engine's own shuffle
 	return c
 }
